@@ -54,14 +54,15 @@ UReq(e) ==
         /\ uriV.k = "Uri" /\ IsCanonOf(e.puri, a.target)
         /\ (isCheck => e.paylen = 0)
         /\ (~isCheck => /\ e.pay_ok                                   \* the document is the file, unchanged
+                        /\ a.args.input # "missing"                   \* an unreadable file is never replaced by something else
                         /\ (Checked => a.script.check = "ready")      \* nothing is submitted to a stopped / blocked printer
                         /\ reqs = (IF Checked THEN 1 ELSE 0))         \* exactly one Print-Job
   /\ reqs' = reqs + 1 /\ UNCHANGED a
 UExit(e) ==
   /\ a # None
-  /\ LET proceed == ~Checked \/ a.script.check = "ready"
+  /\ LET proceed == (~Checked \/ a.script.check = "ready") /\ a.args.input # "missing"
          want    == (IF Checked THEN 1 ELSE 0) + (IF proceed THEN 1 ELSE 0) IN
-     /\ reqs = want
+     /\ (IF a.args.input = "missing" THEN reqs <= want ELSE reqs = want)   \* the file may be opened before or after the state query
      /\ (e.code = 0) = (proceed /\ a.script.print = "ok")
      /\ e.code \in 0..255                          \* a normal exit (not a signal / timeout of the harness)
   /\ a' = None /\ UNCHANGED reqs
